@@ -42,7 +42,7 @@ var appSpec = chainsim.CheckSpec{
 }
 
 func runAppLevel(r *evid.Run) {
-	cases := chainsim.StdCases(r.Seed, r.Pick(48, 1200), r.Pick(80, 120), []string{"runtime", "runtime", "hostile"})
+	cases := chainsim.StdCases(r.Seed, r.Pick(96, 1200), r.Pick(80, 120), []string{"runtime", "runtime", "hostile"})
 	for i := range cases {
 		cases[i].Index += 1_000_000 // distinct scratch directories
 	}
